@@ -59,6 +59,8 @@ class Aff(AbstractValue):
 
     # ---- sa.interp hooks ---------------------------------------------------
     def abs_binop(self, interp, op, other, reflected):
+        if op is ast.Mult and isinstance(other, str):
+            return self._strmul(other)
         o = Aff.lift(other)
         if o is None:
             return Unknown('aff-op')
@@ -73,6 +75,9 @@ class Aff(AbstractValue):
             if b.is_const():
                 return a.scale(b.const)
         return Unknown('aff-nonlinear')
+
+    def _strmul(self, s):
+        return LenStr(self.scale(len(s)), label='rep:' + s[:1])
 
     def abs_unary(self, interp, op):
         if op is ast.USub:
